@@ -187,6 +187,9 @@ func c17Run(raw json.RawMessage) harn.Result {
 		if err := vm.Run(c03Prelude); err != nil {
 			panic(err)
 		}
+		if c.Kind == "transparent" && len(c.Src)%6 == 2 {
+			drv.WarmUp(vm) // a sixth of the transparent cases: both VMs well used before the extensions are installed
+		}
 		return vm
 	}
 	switch c.Kind {
